@@ -77,6 +77,16 @@ func c08FixedTemplates() []string {
 			"  "+N("job-id-def", "use")+":", "    needs: "+N("needs-entry", "Build"), "    runs-on: ubuntu-latest", "    steps:",
 			"      - id: "+N("step-id-def", "St"), "        run: echo ${{ "+ctx("needs")+"['"+N("index-literal:needs-ctx-use", "Build")+"']['"+N("index-literal:property-keyword", "outputs")+"']['"+N("index-literal:job-output-use", "Out")+"'] }}",
 			"      - run: echo ${{ "+ctx("steps")+"['"+N("index-literal:step-id-use", "St")+"']."+kw("outcome")+" }} ${{ "+ctx("github")+"['"+N("index-literal:property-builtin", "event_name")+"'] }} ${{ "+ctx("github")+"."+bp("event")+"['"+N("index-literal:untrusted-path", "pull_request")+"']['"+N("index-literal:untrusted-path", "title")+"'] }}"),
+		// matrix rows given by expressions: the exclude / include checks skip such rows, whatever the
+		// letter case of the key that names them (round 10)
+		j("on: push", "jobs:", "  "+N("job-id-def", "mx")+":", "    strategy:", "      matrix:",
+			"        "+N("matrix-row-key", "os")+": ${{ "+fn("fromJSON")+"('[\"linux\",\"mac\"]') }}",
+			"        "+N("matrix-row-key", "Arch")+": [x64, arm]",
+			"        "+N("matrix-row-key", "node")+": ${{ "+fn("fromJSON")+"("+ctx("vars")+"."+N("property-map", "NODES")+") }}",
+			"        include:", "          - "+N("matrix-include-key", "Os")+": bsd", "            "+N("matrix-include-key", "extra")+": 1",
+			"        exclude:", "          - "+N("matrix-exclude-key", "os")+": mac", "          - "+N("matrix-exclude-key", "Node")+": 12", "            "+N("matrix-exclude-key", "arch")+": arm",
+			"    runs-on: ubuntu-latest", "    steps:",
+			"      - run: echo ${{ "+ctx("matrix")+"."+N("matrix-use", "os")+" }} ${{ "+ctx("matrix")+"."+N("matrix-use", "node")+" }} ${{ "+ctx("matrix")+"."+N("matrix-use", "arch")+" }}"),
 	}
 }
 
